@@ -87,6 +87,10 @@ type c04Hist struct {
 	nextRecv uint64
 	plannedDel  *big.Int          // delegation of the multicall contract while a mixed transaction is planned
 	undelegations int
+	clientNames map[string]bool   // OWN record: names for which a client was created (exact string); cleared by an upgrade
+	nearTag     string            // near-miss class of the destination of the single send being delivered
+	nearDst     string
+	nearRot     int
 	mixedOrder  string            // plan of the mixed transaction being sent (S send, K staking, G gov, E erc20, F foreign)
 	hot         string            // wide histories: destination planted at 2^64-2 / 2^64-3
 	base        map[string]uint64 // planted counters: dst -> n-1
@@ -420,8 +424,13 @@ func (h *c04Hist) noteSends(evs []packettypes.EventSendPacket) {
 			continue // relay-branch event of a self-named client history (src is always self there, kept for safety)
 		}
 		q, _ := strconv.ParseUint(e.Sequence, 10, 64)
-		if _, found := h.w.A.App.XIBCKeeper.ClientKeeper.GetClientState(h.w.A.GetContext(), e.DstChain); !found {
-			h.find("C04:send-to-unknown-destination", "a send to a destination without light client succeeded", e.DstChain+"/"+e.Sequence, "send fails, nothing changes")
+		if !h.clientNames[e.DstChain] { // own record, exact string — not the client keeper's lookup
+			cls := h.nearMissClass(e.DstChain)
+			h.find("C04:send-to-unknown-destination-committed:"+cls, "a send to a destination for which no client of exactly that name was created was committed",
+				fmt.Sprintf("dst %q seq %s (class %s); commitment, both counters and the escrow of a phantom destination", e.DstChain, e.Sequence, cls), "the send fails and changes nothing")
+		}
+		if h.hasCaseSibling(e.DstChain) {
+			h.r.Count("send.ok.case-sibling")
 		}
 		h.sent[e.DstChain] = append(h.sent[e.DstChain], c04Sent{e.DstChain, q, e.Packet})
 		h.see(e.DstChain)
@@ -620,6 +629,18 @@ func (h *c04Hist) randSend(small bool) c04Send {
 		s.callback = cbs[rg.Intn(len(cbs))]
 		s.tags = append(s.tags, "callback.nonzero")
 	}
+	h.nearTag, h.nearDst = "", ""
+	if !small && rg.Intn(100) < 14 {
+		if d, tag := h.nearMiss(); d != "" {
+			h.nearTag, h.nearDst, s.dst = tag, d, d
+		}
+	}
+	if h.nearTag != "" && !small {
+		// a near miss of a client name: everything else about the call is plain, so that it reaches the packet hook and is
+		// refused THERE (not by an allowance or a receiver check of the endpoint)
+		s.tok, s.feeTok, s.amt, s.feeAmt = 1, 1, big.NewInt(int64(1+rg.Intn(50))), big.NewInt(0)
+		s.receiver, s.contract, s.callData, s.callback = c04Relayer, "", nil, common.Address{}
+	}
 	return s
 }
 
@@ -771,6 +792,29 @@ func (h *c04Hist) doTx(kind string, to common.Address, value *big.Int, data []by
 			h.find("C04:failed-tx-changed-state", "failed transaction changed xibc store / contract storage / balances", kind+" "+out.vmErr, "state identical before and after")
 		}
 	}
+	if kind == "send" && h.nearTag != "" {
+		reached := false
+		for _, p := range ps {
+			if p.DstChain == h.nearDst {
+				reached = true
+			}
+		}
+		switch {
+		case res == "ok" && reached:
+			h.r.Count("send.nearmiss." + h.nearTag + ".committed")
+		case reached:
+			h.r.Count("send.nearmiss." + h.nearTag + ".refused")
+			h.r.Count("send.nearmiss.refused")
+			if strings.Contains(h.nearTag, "case") {
+				h.r.Count("send.nearmiss.case-variant.refused")
+			} else {
+				h.r.Count("send.nearmiss.prefix-or-extension.refused")
+			}
+		default:
+			h.r.Count("send.nearmiss." + h.nearTag + ".reverted-in-evm")
+		}
+	}
+	h.nearTag, h.nearDst = "", ""
 	h.pendingTags = nil
 	h.r.Count("tx." + kind + "." + res)
 	h.emit("tx "+c04B(vmOk)+" "+lf, res)
@@ -820,6 +864,12 @@ func (h *c04Hist) randomForgedPacket() packettypes.Packet {
 	w, rg := h.w, h.rg
 	ds := []string{w.B.ChainID, w.C.ChainID, w.tss, c04Unk}
 	dst := ds[rg.Intn(len(ds))]
+	if rg.Intn(8) == 0 {
+		if d, tag := h.nearMiss(); d != "" {
+			dst = d
+			h.r.Count("hook.nearmiss." + tag)
+		}
+	}
 	next := w.A.App.XIBCKeeper.PacketKeeper.GetNextSequenceSend(w.A.GetContext(), w.self, dst)
 	p := h.forgedPacket(dst, next, w.self, true)
 	if rg.Intn(3) == 0 { // forged packets vary the fields a genuine one varies
@@ -950,6 +1000,7 @@ func (h *c04Hist) doUpgrade() {
 	h.sent = map[string][]c04Sent{}
 	h.acked = map[string]bool{}
 	h.base = map[string]uint64{}
+	h.clientNames = map[string]bool{}
 	h.selfCl = false
 	h.upgraded++
 	h.r.Count("upgrade")
@@ -983,6 +1034,7 @@ func (h *c04Hist) doClient(name string) {
 	if err == nil {
 		write()
 		res = "ok"
+		h.clientNames[name] = true
 		if name == w.self {
 			h.selfCl = true
 		}
@@ -1347,7 +1399,7 @@ func (w *c04World) fund() {
 func newC04Hist(t *testing.T, r *Rec, cb bool, sub int64, mode int, n int) *c04Hist {
 	w := newC04World(t)
 	w.fund()
-	h := &c04Hist{w: w, r: r, universe: map[string]bool{}, sent: map[string][]c04Sent{}, acked: map[string]bool{}, base: map[string]uint64{}, cb: cb, rg: rand.New(rand.NewSource(sub))}
+	h := &c04Hist{w: w, r: r, universe: map[string]bool{}, sent: map[string][]c04Sent{}, acked: map[string]bool{}, base: map[string]uint64{}, clientNames: map[string]bool{}, cb: cb, rg: rand.New(rand.NewSource(sub))}
 	gen := fmt.Sprintf("gen %d %d %d", sub, mode, n)
 	h.ops = append(h.ops, gen)
 	r.Op(gen, "ok")
@@ -1358,6 +1410,7 @@ func newC04Hist(t *testing.T, r *Rec, cb bool, sub int64, mode int, n int) *c04H
 	}
 	var parts []string
 	for _, c := range cl {
+		h.clientNames[c] = true
 		h.see(c)
 		parts = append(parts, hxs(c))
 	}
